@@ -3,6 +3,7 @@ import NeumannModel.TwoPC.LemmasPart
 import NeumannModel.TwoPC.LemmasLate
 import NeumannModel.TwoPC.LemmasVote
 import NeumannModel.TwoPC.LemmasVoteSplit
+import NeumannModel.TwoPC.LemmasOps
 /-
   C03 — "Two-phase commit: every participant reaches the coordinator's one decision".
   ONLY the property theorems and their non-vacuity examples; helpers are in `Lemmas*.lean`.
@@ -140,6 +141,15 @@ theorem shard_data_is_replay_of_committed (stores : List Store) (tt mc lt : Nat)
   intro sh tx ops hx
   have hd := hinv.applied sh tx (hA sh tx ops hx)
   exact ⟨hd, hinv.excl tx hd⟩
+
+/-- What a participant applies is what the client asked for: every logged application on shard `sh`
+    consists of exactly the operations the client named for `sh` when it began that transaction (so,
+    with the theorem above, a shard holds its initial data plus the CLIENTS' operations of the
+    commit-decided transactions, and nothing of any other transaction). -/
+theorem applied_writes_are_the_clients_operations (stores : List Store) (tt mc lt : Nat) {s : Sys}
+    (hr : Reach (Sys.init stores tt mc lt) s) (sh tx : Nat) (ops : List Op)
+    (hx : (sh, tx, ops) ∈ s.appliedOps) : ∃ sp ∈ s.specs, sp.id = tx ∧ ops = sp.opsFor sh :=
+  (OInv.reach hr).app sh tx ops hx
 
 /-! ### non-vacuity: a concrete 2-shard run committing tx 0 and aborting (timing out) tx 1 -/
 
